@@ -30,24 +30,35 @@ try:
     res['tests_not_passing_with_patch'] = [t for t in base['stable_pass'] if t not in passed]
 finally:
     sh('git checkout -- src', wt)
-# my checks against /repo with the patch applied
-assert sh('git status --porcelain', '/repo', env=os.environ).stdout.strip() == '', '/repo not clean'
-r = sh(f'git -C /repo apply {src}/patch.diff', env=os.environ); assert r.returncode == 0, r.stderr
+# my checks against a scratch copy of /repo/src with the patch applied (AMISC_SRC), so that /repo itself is never modified while
+# background sweeps / vp check read it; `INREPO=1` applies to /repo instead (git apply ... git checkout -- .)
 checks = {}
+if os.environ.get('INREPO'):
+    assert sh('git status --porcelain', '/repo', env=os.environ).stdout.strip() == '', '/repo not clean'
+    r = sh(f'git -C /repo apply {src}/patch.diff', env=os.environ); assert r.returncode == 0, r.stderr
+    cenv = dict(os.environ)
+else:
+    scratch = Path(tempfile.mkdtemp(prefix='amisc_seed_'))
+    shutil.copytree('/repo/src', scratch / 'src')
+    r = sh(f'patch -p1 -d {scratch} < {src}/patch.diff', env=os.environ); assert r.returncode == 0, r.stdout + r.stderr
+    cenv = dict(os.environ, AMISC_SRC=str(scratch / 'src'))
 try:
     for p in [prop] + extra:
-        r = sh(f'./check {p} quick', V, env=os.environ)
+        r = sh(f'./check {p} quick', V, env=cenv)
         checks[p] = {'exit': r.returncode, 'lines': [l for l in r.stdout.splitlines() if l.startswith(('VIOLATION', 'KNOWN', '['))][:4]}
 finally:
-    sh('git -C /repo checkout -- .', env=os.environ)
+    if os.environ.get('INREPO'):
+        sh('git -C /repo checkout -- .', env=os.environ)
+    else:
+        shutil.rmtree(scratch, ignore_errors=True)
 res['checks_with_patch'] = checks
 out = V / 'seeded' / f'{prop}-{k}'
 out.mkdir(parents=True, exist_ok=True)
 shutil.copy(src / 'patch.diff', out / 'patch.diff'); shutil.copy(src / 'demo.py', out / 'demo.py')
 meta = json.loads((src / 'meta.json').read_text())
 meta['verified_by_me'] = res
-meta['what_i_ran'] = ('scratch worktree: demo unchanged / demo patched / baseline pytest with patch; /repo: git apply, ./check '
-                      + ' '.join([prop] + extra) + ' quick, git checkout -- .')
+meta['what_i_ran'] = ('scratch worktree: demo unchanged / demo patched / baseline pytest with patch; patched copy of /repo/src (AMISC_SRC): ./check '
+                      + ' '.join([prop] + extra) + ' quick')
 (out / 'meta.json').write_text(json.dumps(meta, indent=1))
 ok = res['demo_unchanged_exit'] == 0 and res['demo_patched_exit'] != 0 and not res['tests_not_passing_with_patch']
 print(json.dumps({'valid_seed': ok, 'caught': {p: c['exit'] == 1 for p, c in checks.items()}, **res}, indent=1)[:3000])
